@@ -87,13 +87,38 @@ def case_same_names(rng):
     return None
 
 
+def case_strings(rng):
+    """a string table whose strings have lengths around the multiples of the 64-byte read chunk, at arbitrary offsets: the
+    lookup at any offset inside a string returns its tail up to the terminator, whatever its length"""
+    from elftools.elf.elffile import ELFFile
+    from tasks._img import sections_image
+    cls, le = rng.choice([32, 64]), rng.random() < 0.5
+    lens = [rng.choice([0, 1, 2, 62, 63, 64, 65, 66, 127, 128, 129, 191, 192, 193, 255, 256, 300]) for _ in range(rng.choice([1, 3, 6]))]
+    tab, starts = b'\x00', []
+    for n in lens:
+        starts.append(len(tab))
+        tab += bytes(rng.choice(b'abcdefghijklmnopqrstuvwxyz_.$') for _ in range(n)) + b'\x00'
+    pre = rng.choice([0, 1, 13, 63, 64])             # the table starts at an arbitrary file offset
+    img, _ = sections_image(cls, le, [dict(name='.pad', type=1, data=b'\xaa' * pre), dict(name='.strtab', type=3, data=tab)])
+    st = ELFFile(io.BytesIO(img)).get_section_by_name('.strtab')
+    for s0, n in zip(starts, lens):
+        for off in {s0, s0 + n, s0 + n // 2, s0 + max(0, n - 64), s0 + max(0, n - 65), s0 + min(n, 1)}:
+            want = tab[off:tab.index(b'\x00', off)].decode('utf-8')
+            got = st.get_string(off)
+            if got != want:
+                return ('get_string(%d) returns %d characters %r..., the string there has %d: %r...' % (off, len(got), got[:20], len(want), want[:20]),
+                        'class %d le=%s string lengths %r, table at file offset +%d' % (cls, le, lens, pre), img.hex())
+    return None
+
+
 @task('c02-contents-differential', ['C02'], kind='bounded')
 def contents(tier, seed):
     rng = random.Random(seed + 202)
     n = 40 if tier == 'quick' else 3000
     obs = []
     for label, fn, how in (('address_offsets', case_offsets, 'ELFFile.address_offsets on a generated program header table'),
-                           ('same-named sections', case_same_names, 'Section.data() by index on an image with same-named sections')):
+                           ('same-named sections', case_same_names, 'Section.data() by index on an image with same-named sections'),
+                           ('string table lookups', case_strings, 'StringTableSection.get_string on a generated string table')):
         bad = None
         for _ in range(n):
             try:
